@@ -222,7 +222,7 @@ func c14RunE2E(prop string, cfg c14RunCfg) *c14Result {
 	var pending []c14Action
 	for _, a := range cfg.Actions {
 		switch a.Kind {
-		case "hold", "drain", "restart", "add":
+		case "hold", "drain", "restart", "add", "add-rare":
 			pending = append(pending, a)
 		}
 	}
@@ -236,13 +236,40 @@ func c14RunE2E(prop string, cfg c14RunCfg) *c14Result {
 			w.operatorAction(a.Kind, held)
 		case "add":
 			w.addContainers(cfg.LateAdd)
+		case "add-rare":
+			for _, t := range cfg.RareLate {
+				c := w.rareContainer(t)
+				w.tq.Notify(c)
+				w.log.add(c14Event{Kind: "api-add", UUID: c.UUID, Info: fmt.Sprintf("type%d", t)})
+			}
+			w.count("containers_added_late", len(cfg.RareLate))
+			// the fault phase lasts until the cloud has been asked at
+			// least once for each of these types (bounded by polls)
+			w.mu.Lock()
+			lim := w.polls + cfg.pollsFor(4000)
+			for time.Now().Before(watchdog) && w.polls < lim {
+				all := true
+				for _, t := range cfg.RareLate {
+					g := w.cur
+					g.mu.Lock()
+					if g.createSeen[fmt.Sprintf("type%d", t)] == 0 {
+						all = false
+					}
+					g.mu.Unlock()
+				}
+				if all {
+					break
+				}
+				w.cond.Wait()
+			}
+			w.mu.Unlock()
 		case "restart":
 			old := w.curGen()
 			// adversarial placement: prefer the moment when a crunch-run
 			// has been delivered to a slow-start VM but not answered yet
 			// (bounded by progress, not by time)
 			w.mu.Lock()
-			limS, limP := w.nStarts+15, w.polls+400
+			limS, limP := w.nStarts+15, w.polls+cfg.pollsFor(2000)
 			for w.slowInFlight == 0 && w.nStarts < limS && w.polls < limP && time.Now().Before(watchdog) {
 				w.cond.Wait()
 			}
@@ -406,6 +433,30 @@ func c14RunE2E(prop string, cfg c14RunCfg) *c14Result {
 			sig := fmt.Sprintf("C15:L1:container-not-final:state=%s:process=%s", s.c.State, proc)
 			if proc != "live" && (s.c.State == arvados.ContainerStateRunning || s.c.State == arvados.ContainerStateLocked) {
 				sig = fmt.Sprintf("C15:L2:container-with-dead-process-stuck:state=%s", s.c.State)
+			}
+			w.mu.Lock()
+			started := false
+			for _, st := range w.starts {
+				if st.uuid == s.c.UUID {
+					started = true
+				}
+			}
+			w.mu.Unlock()
+			if !started && proc == "none" && s.c.State != arvados.ContainerStateRunning {
+				// never got a crunch-run: how many instances of its type exist?
+				n := 0
+				if it, err := ChooseInstanceType(w.cluster, &s.c); err == nil {
+					for _, svm := range w.sis.C14VMs() {
+						if svm.C14ProviderType() == it.ProviderType {
+							n++
+						}
+					}
+				}
+				inst := "no-instance-of-its-type"
+				if n > 0 {
+					inst = "instances-of-its-type-exist"
+				}
+				sig = fmt.Sprintf("C15:L1:container-never-started:state=%s:%s", s.c.State, inst)
 			}
 			if s.c.Priority == 0 {
 				sig += ":priority=0"
